@@ -10,6 +10,7 @@ import (
 	"strings"
 	"sync"
 	"testing"
+	"time"
 
 	"github.com/woodsbury/jmespath"
 	"pgregory.net/rapid"
@@ -104,7 +105,36 @@ func c07Run(sc c07Scenario) string {
 		}(g, ops)
 	}
 	close(start)
-	wg.Wait()
+	// Wait for the goroutines. If the process uses (almost) no CPU for 30
+	// consecutive seconds while some of them are still inside the library, they
+	// are blocked on one another: no amount of waiting will bring them back.
+	// (Idle CPU, not elapsed time, is the signal: on a busy machine work may
+	// be slow, but it still consumes CPU.)
+	finished := make(chan struct{})
+	go func() { wg.Wait(); close(finished) }()
+	idle, last := 0, run.ProcessCPU()
+	tick := time.NewTicker(time.Second)
+	defer tick.Stop()
+waiting:
+	for {
+		select {
+		case <-finished:
+			break waiting
+		case <-tick.C:
+			now := run.ProcessCPU()
+			// (the harness's own watchdogs use a few milliseconds per second;
+			// one working goroutine uses a thousand)
+			if now-last < 100*time.Millisecond {
+				idle++
+			} else {
+				idle = 0
+			}
+			last = now
+			if idle >= 30 {
+				return fmt.Sprintf("BLOCKED: %d goroutines started, some never returned: the process has used no CPU for 30 s while calls are outstanding (the calls block one another)", len(sc.Goroutines))
+			}
+		}
+	}
 	close(errs)
 	for m := range errs {
 		return m
@@ -320,6 +350,10 @@ func TestC07_Concurrent(t *testing.T) {
 		run.Watch(c, "concurrent", rp.Calls...)
 		if msg := c07Run(sc); msg != "" {
 			rp.Message = msg
+			rp.Extra = mustJSON(sc)
+			if strings.HasPrefix(msg, "BLOCKED:") {
+				c.Abort(rp)
+			}
 			c.Fail(t, rp, "outcome")
 			return
 		}
@@ -342,7 +376,7 @@ func init() {
 		// schedule-dependent: repeat
 		for i := 0; i < 200; i++ {
 			if msg := c07Run(sc); msg != "" {
-				return msg
+				return msg // (a BLOCKED one ends the replay process right away: see TestReplay)
 			}
 		}
 		return ""
@@ -398,6 +432,9 @@ func TestC07_DeepParse(t *testing.T) {
 		c.Case()
 		if msg := c07Run(sc); msg != "" {
 			short := sc
+			if strings.HasPrefix(msg, "BLOCKED:") {
+				c.Abort(run.Replay{Check: "deep-parse", Kind: "custom:c07", Calls: []run.Call{{API: "search", Expr: truncate(sc.Exprs[0], 200), Doc: &sc.Docs[0]}}, Message: truncate(msg, 600), Extra: mustJSON(short)})
+			}
 			c.Fail(t, run.Replay{Check: "deep-parse", Kind: "custom:c07", Calls: []run.Call{{API: "search", Expr: truncate(sc.Exprs[0], 200), Doc: &sc.Docs[0]}}, Message: truncate(msg, 600), Extra: mustJSON(short)}, "deep-parse")
 			return
 		}
@@ -405,5 +442,52 @@ func TestC07_DeepParse(t *testing.T) {
 		c.NonTrivial(fmt.Sprint(total, ng, nops, len(sc.Exprs[0])), func() any {
 			return map[string]any{"expressions": ne, "summed_nesting_depth": total, "goroutines": ng, "ops_per_goroutine": nops}
 		})
+	})
+}
+
+// C07 (heavy calls): every goroutine runs one expensive call at the same time
+// -- large sorts, groupings and mappings nested in each other's expression
+// references, on a shared Expression and document. Anything that serialises or
+// rations such work (locks, semaphores, pools sized by the number of
+// processors) must still let every call finish with the outcome it has alone.
+// Plain binary; the number of goroutines is 1x, 1.5x and 2x GOMAXPROCS.
+func TestC07_Heavy(t *testing.T) {
+	c := collector("C07", "heavy")
+	check(t, func(t *rapid.T) {
+		n := gen.Pick(t, "len", []int{1024, 1100, 2048})
+		good := make([]jv.Val, n)
+		strs := make([]jv.Val, n)
+		for i := range good {
+			good[i] = jv.VObj([]jv.Member{{K: "k", V: jv.VInt(int64((i * 7919) % n))}, {K: "i", V: jv.VInt(int64(i))}})
+			strs[i] = jv.VObj([]jv.Member{{K: "k", V: jv.VStr(strconv.Itoa((i * 31) % n))}, {K: "i", V: jv.VInt(int64(i))}})
+		}
+		doc := jv.VObj([]jv.Member{{K: "good", V: jv.VArr(good)}, {K: "strs", V: jv.VArr(strs)}})
+		sc := c07Scenario{Docs: []run.Node{run.FromVal(doc)}}
+		pool := []string{"sort_by(good, &sort_by($.strs, &k)[0].k)[0].i", "sort_by(strs, &sort_by($.good, &k)[-1].i)[0].i", "max_by(good, &length(sort_by($.strs, &k)))",
+			"sort_by(good, &max_by($.good, &k).k)[0].i", "length(group_by(good, &to_string(sort_by($.strs, &k)[0].i)))", "map(&sort_by($.good, &k)[0].i, strs[:1100]) | length(@)",
+			"sort_by(good, &k)[*].i | length(@)", "sort_by(strs, &k)[0]", "length(sort(good[*].k))"}
+		ne := rapid.IntRange(1, 3).Draw(t, "nexprs")
+		for i := 0; i < ne; i++ {
+			sc.Exprs = append(sc.Exprs, gen.Pick(t, "heavyexpr", pool))
+			sc.Loose = append(sc.Loose, false)
+			sc.Multi = append(sc.Multi, []bool{false})
+		}
+		procs := runtime.GOMAXPROCS(0)
+		ng := gen.Pick(t, "goroutines", []int{procs, procs + procs/2, 2 * procs})
+		for g := 0; g < ng; g++ {
+			sc.Goroutines = append(sc.Goroutines, []c07Op{{Kind: gen.Pick(t, "opkind", []string{"expr", "search"}), Expr: rapid.IntRange(0, ne-1).Draw(t, "e")}})
+		}
+		sc.Procs = procs
+		c.Case()
+		if msg := c07Run(sc); msg != "" {
+			rp := run.Replay{Check: "heavy", Kind: "custom:c07", Calls: []run.Call{{API: "search", Expr: sc.Exprs[0], Doc: &sc.Docs[0]}}, Message: truncate(msg, 600), Extra: mustJSON(sc)}
+			if strings.HasPrefix(msg, "BLOCKED:") {
+				c.Abort(rp) // the blocked calls keep what they hold: nothing further can run in this process
+			}
+			c.Fail(t, rp, "heavy")
+			return
+		}
+		c.Label("ok")
+		c.NonTrivial(fmt.Sprint(sc.Exprs, ng, n), func() any { return map[string]any{"expressions": sc.Exprs, "goroutines": ng, "records": n} })
 	})
 }
